@@ -265,7 +265,10 @@ func main() {
 					ks.Cached = nil
 				}
 			case "alg_not_allowed":
-				v.Algs = []string{map[bool]string{true: "ES256", false: "RS256"}[alg == "RS256"]}
+				// a configured list without the token's algorithm: another asymmetric one,
+				// only none / HS*, only unknown names ([] would mean the library default)
+				v.Algs = drv.Pick(r, [][]string{{map[bool]string{true: "ES256", false: "RS256"}[alg == "RS256"]},
+					{"HS256"}, {"none", "HS512"}, {"foo"}, {"hs256", "rs256"}, {""}})
 			case "absent_key":
 				ks.Served = ks.Served[:0]
 				ks.Cached = nil
